@@ -223,7 +223,7 @@ def job_inner(j):
     tsolve = 0.0
     for ob in res.obligations:
         assertions = list(ob.pc) + ([ob.neg] if ob.neg is not None else [])
-        key = hashlib.sha1(('\n'.join(a.sexpr() for a in assertions)).encode()).hexdigest()
+        key = hashlib.sha1((hname + '|' + ob.label + '|' + json.dumps(ob.choices, sort_keys=True) + '|' + '\n'.join(a.sexpr() for a in assertions)).encode()).hexdigest()
         rec = dict(label=ob.label, kind=ob.kind, hash=key[:12], size=sum(len(a.sexpr()) for a in assertions))
         if key in seen:
             rec.update(seen[key])
@@ -507,7 +507,7 @@ def finish(pid, seed, t0, t_export, results, known):
             json.dump(dict(property=pid, harness=r['harness'], label=o['label'], kind=o['kind'], native=o.get('native'),
                            cases=[o['case']], pkgdir=r['pkgdir']), f, indent=1)
         print('VIOLATION property=%s replay=%s' % (pid, path))
-        print('  harness %s: %s  [%s]' % (r['harness'], o['label'], (o.get('native_msg') or '')[:200]))
+        print('  harness %s: %s  [%s] %s' % (r['harness'], o['label'], (o.get('native_msg') or '')[:200], json.dumps(o['case']['values'])[:300]))
         rc = 1
     kf = {f['id']: f for f in known}
     for k in sorted(knowns):
